@@ -29,6 +29,10 @@ def make_body(rng, key, pos):
         desc = g.gen_desc(rng, maxtl=120)
         p = g.gen_payload(rng, 200)
         ents.append(layout.Entry(desc, p, rng.choice([len(p), len(p), 1, max(1, len(p) - 1)])))
+    if rng.random() < 0.3:
+        # the same payload twice (one image per hardware variant): equal stored bytes, equal payload MAC
+        src = rng.choice(ents)
+        ents.insert(rng.randrange(len(ents) + 1), layout.Entry(g.gen_desc(rng, maxtl=120), src.payload, src.declared))
     b = layout.Body(ents, pos)
     b.relayout(key)
     return b
